@@ -31,6 +31,9 @@ use crate::wire::{self, Sub};
 pub struct SRunSpec {
     pub scenario: String,
     pub n: usize,
+    /// "nkstream" / "nkbare": kind of the i-th item, "V" value | "D" dispose
+    #[serde(default)]
+    pub kinds: Vec<String>,
     pub sched: Vec<usize>,
 }
 
@@ -76,6 +79,66 @@ fn producer_reader(s: Arc<Sched>, sh: Arc<Shared>, n: usize, tx: mpsc::Sender<ru
             let sn = i as i64;
             let dg = wire::encode(&writer_prefix(1), &[Sub::Data { reader: reader_eid, writer: writer_eid(1), sn, inline_qos: None, payload: Some(wire::vsample_payload(1, sn as u32, &[1, 2, 3])), key_flag: false }]);
             let _ = rig.inject(&dg);
+        }
+    }
+    sched::leave();
+}
+
+/// receive thread feeding a reader on the un-keyed topic: values and disposes (DATA with the key flag and an empty
+/// key, as other implementations send on un-keyed topics when a writer is deleted)
+fn producer_reader_nk(s: Arc<Sched>, sh: Arc<Shared>, kinds: Vec<String>, tx: mpsc::Sender<rustdds::no_key::DataReader<VSample>>) {
+    let mut rig = ReaderRig::new(&[ReaderCfg { reliable: true, history_depth: None, max_samples: Some(100_000) }]);
+    let (dr, reader_eid) = rig.add_no_key_reader(true);
+    rig.match_writer_to(reader_eid, writer_guid(1), true, 24_002);
+    tx.send(dr).unwrap();
+    sched::enter(0, s);
+    let mut i = 0;
+    loop {
+        sched::yp("r_inject");
+        if sh.stop.load(Ordering::SeqCst) {
+            break;
+        }
+        if i < kinds.len() {
+            i += 1;
+            sh.inserted.store(i, Ordering::SeqCst);
+            let sn = i as i64;
+            let sub = if kinds[i - 1] == "V" {
+                Sub::Data { reader: reader_eid, writer: writer_eid(1), sn, inline_qos: None, payload: Some(wire::vsample_payload(1, sn as u32, &[1, 2, 3])), key_flag: false }
+            } else {
+                Sub::Data { reader: reader_eid, writer: writer_eid(1), sn, inline_qos: None, payload: Some(vec![0, 1, 0, 0]), key_flag: true }
+            };
+            let _ = rig.inject(&wire::encode(&writer_prefix(1), &[sub]));
+        }
+    }
+    sched::leave();
+}
+
+fn app_nkstream(s: Arc<Sched>, sh: Arc<Shared>, flag: Arc<Flag>, rx: mpsc::Receiver<rustdds::no_key::DataReader<VSample>>, bare: bool) {
+    let dr = rx.recv().unwrap();
+    let (mut bare_stream, mut full_stream) = if bare { (Some(dr.async_bare_sample_stream()), None) } else { (None, Some(dr.async_sample_stream())) };
+    let waker = futures::task::waker(flag.clone());
+    let mut cx = Context::from_waker(&waker);
+    sched::enter(1, s);
+    'outer: loop {
+        sched::yp("a_poll");
+        if sh.stop.load(Ordering::SeqCst) {
+            break;
+        }
+        let r = match (&mut bare_stream, &mut full_stream) {
+            (Some(st), _) => Pin::new(st).poll_next(&mut cx).map(|o| o.map(|r| r.is_ok())),
+            (_, Some(st)) => Pin::new(st).poll_next(&mut cx).map(|o| o.map(|r| r.is_ok())),
+            _ => Poll::Ready(None),
+        };
+        match r {
+            Poll::Ready(Some(true)) => {
+                sh.delivered.fetch_add(1, Ordering::SeqCst);
+            }
+            Poll::Ready(_) => {}
+            Poll::Pending => {
+                if !park(&sh, &flag, "a_parked") {
+                    break 'outer;
+                }
+            }
         }
     }
     sched::leave();
@@ -309,9 +372,18 @@ pub fn run_one(run_no: usize, spec: &SRunSpec, out: &mut Vec<Value>) -> Vec<Vec<
     let s = Sched::new();
     let sh = Arc::new(Shared::default());
     let flag = Arc::new(Flag { woken: AtomicBool::new(false), count: AtomicUsize::new(0) });
-    let reader = matches!(spec.scenario.as_str(), "stream" | "mio6" | "mio8");
-    let n = spec.n;
-    let (h0, h1) = if reader {
+    let reader = matches!(spec.scenario.as_str(), "stream" | "mio6" | "mio8" | "nkstream" | "nkbare");
+    let nk = matches!(spec.scenario.as_str(), "nkstream" | "nkbare");
+    let n = if nk { spec.kinds.len() } else { spec.n };
+    let vals = spec.kinds.iter().filter(|k| k.as_str() == "V").count();
+    let (h0, h1) = if nk {
+        let (tx, rx) = mpsc::channel();
+        let (s0, sh0, kinds) = (s.clone(), sh.clone(), spec.kinds.clone());
+        let h0 = std::thread::spawn(move || producer_reader_nk(s0, sh0, kinds, tx));
+        let (s1, sh1, f1, bare) = (s.clone(), sh.clone(), flag.clone(), spec.scenario == "nkbare");
+        let h1 = std::thread::spawn(move || app_nkstream(s1, sh1, f1, rx, bare));
+        (h0, h1)
+    } else if reader {
         let (tx, rx) = mpsc::channel();
         let (s0, sh0) = (s.clone(), sh.clone());
         let h0 = std::thread::spawn(move || producer_reader(s0, sh0, n, tx));
@@ -400,7 +472,7 @@ pub fn run_one(run_no: usize, spec: &SRunSpec, out: &mut Vec<Value>) -> Vec<Vec<
     }
     let l1 = s.where_is(1);
     out.push(json!({"ev":"End","scenario":spec.scenario,"hung":hung,"app_at":l1.unwrap_or("running"),"woken":flag.woken.load(Ordering::SeqCst),
-        "ins":sh.inserted.load(Ordering::SeqCst),"del":sh.delivered.load(Ordering::SeqCst),"done":sh.completed.load(Ordering::SeqCst),"target":target_done,"n":n,"wakes":flag.count.load(Ordering::SeqCst)}));
+        "ins":sh.inserted.load(Ordering::SeqCst),"del":sh.delivered.load(Ordering::SeqCst),"done":sh.completed.load(Ordering::SeqCst),"target":target_done,"n":n,"vals":vals,"wakes":flag.count.load(Ordering::SeqCst)}));
     // teardown
     sh.stop.store(true, Ordering::SeqCst);
     if !hung {
@@ -426,7 +498,7 @@ pub fn main(mode: &str, opt: &HashMap<String, String>) -> i32 {
             let mut rng = StdRng::seed_from_u64(util::get(opt, "seed", 1u64) ^ 0xC13);
             let n: usize = util::get(opt, "runs", 100);
             let len: usize = util::get(opt, "events", 60);
-            let scen = ["stream", "mio6", "mio8", "awrite", "await"];
+            let scen = ["stream", "mio6", "mio8", "awrite", "await", "nkstream", "nkbare"];
             let specs: Vec<SRunSpec> = (0..n)
                 .map(|k| {
                     let sc = scen[k % scen.len()];
@@ -440,13 +512,15 @@ pub fn main(mode: &str, opt: &HashMap<String, String>) -> i32 {
                             sched.push(t);
                         }
                     }
-                    SRunSpec { scenario: sc.into(), n: nn, sched }
+                    let kinds: Vec<String> = if sc.starts_with("nk") { (0..rng.gen_range(2..=5)).map(|_| if rng.gen_bool(0.5) { "V".to_string() } else { "D".to_string() }).collect() } else { vec![] };
+                    let nn = if kinds.is_empty() { nn } else { kinds.len() };
+                    SRunSpec { scenario: sc.into(), n: nn, kinds, sched }
                 })
                 .collect();
             util::run_parallel(opt, specs, run_one)
         }
         "syncwait" => {
-            let specs: Vec<SRunSpec> = (0..util::get(opt, "runs", 10usize)).map(|k| SRunSpec { scenario: "syncwait".into(), n: k % 5, sched: vec![] }).collect();
+            let specs: Vec<SRunSpec> = (0..util::get(opt, "runs", 10usize)).map(|k| SRunSpec { scenario: "syncwait".into(), n: k % 5, kinds: vec![], sched: vec![] }).collect();
             util::run_parallel(opt, specs, run_one)
         }
         _ => 2,
